@@ -2040,7 +2040,15 @@ func (c *Ctx) progressRule(reach []*core.FuncInfo) {
 	found := false
 	for _, fi := range reach {
 		sig := fi.Obj.Type().(*types.Signature)
-		if sig.Results().Len() != 1 || !core.IsBool(sig.Results().At(0).Type()) || fi.Decl.Type.Results == nil {
+		if sig.Results().Len() != 1 || fi.Decl.Type.Results == nil {
+			continue
+		}
+		// the pass answers "something was removed" (bool) or "how many were removed" (a count tested > 0)
+		isCount := false
+		if b, isB := sig.Results().At(0).Type().Underlying().(*types.Basic); isB && b.Info()&types.IsInteger != 0 {
+			isCount = true
+		}
+		if !core.IsBool(sig.Results().At(0).Type()) && !isCount {
 			continue
 		}
 		info := c.info(fi)
@@ -2061,7 +2069,25 @@ func (c *Ctx) progressRule(reach []*core.FuncInfo) {
 		ok := true
 		why := ""
 		n := 0
+		var raiseStmts []ast.Stmt
 		ast.Inspect(fi.Decl.Body, func(nd ast.Node) bool {
+			// a counter of removals: n++ next to the deletion, n returned
+			if inc, isInc := nd.(*ast.IncDecStmt); isInc && isCount && inc.Tok == token.INC && c.flowsToReturn(fi, inc.X) {
+				n++
+				raiseStmts = append(raiseStmts, inc)
+				blk, _ := pm[inc].(*ast.BlockStmt)
+				same := false
+				for _, d := range dels {
+					if blk != nil && pm.EnclosingStmt(d) != nil && pm[pm.EnclosingStmt(d)] == ast.Node(blk) {
+						same = true
+					}
+				}
+				if !same {
+					ok = false
+					why = "the removal counter is incremented at " + c.P.Pos(inc.Pos()) + " on a path that does not delete a definition"
+				}
+				return true
+			}
 			as, isAs := nd.(*ast.AssignStmt)
 			if !isAs || len(as.Lhs) != 1 || len(as.Rhs) != 1 {
 				return true
@@ -2078,16 +2104,41 @@ func (c *Ctx) progressRule(reach []*core.FuncInfo) {
 				return true
 			}
 			n++
-			blk, _ := pm[as].(*ast.BlockStmt)
-			same := false
-			for _, d := range dels {
-				if blk != nil && pm.EnclosingStmt(d) != nil && pm[pm.EnclosingStmt(d)] == ast.Node(blk) {
-					same = true
+			// where the flag is raised: the assignment itself, or — when it sits in a local closure
+			// (`removed := func(name string) { hasRemoved = true; … }`) — every statement that calls the closure
+			sites := []ast.Stmt{as}
+			if lit, inLit := pm.Enclosing(as, func(x ast.Node) bool { _, y := x.(*ast.FuncLit); return y }).(*ast.FuncLit); inLit {
+				sites = nil
+				if bind, isBind := pm[lit].(*ast.AssignStmt); isBind && len(bind.Lhs) == 1 {
+					if co := core.ObjOf(info, bind.Lhs[0]); co != nil {
+						ast.Inspect(fi.Decl.Body, func(m ast.Node) bool {
+							if es, isES := m.(*ast.ExprStmt); isES {
+								if call, isCall := es.X.(*ast.CallExpr); isCall && core.ObjOf(info, call.Fun) == co {
+									sites = append(sites, es)
+								}
+							}
+							return true
+						})
+					}
+				}
+				if len(sites) == 0 {
+					ok = false
+					why = "the progress flag is set in a function literal that is not called next to a deletion"
 				}
 			}
-			if !same {
-				ok = false
-				why = "the progress flag is set at " + c.P.Pos(as.Pos()) + " on a path that does not delete a definition"
+			for _, site := range sites {
+				raiseStmts = append(raiseStmts, site)
+				blk, _ := pm[site].(*ast.BlockStmt)
+				same := false
+				for _, d := range dels {
+					if blk != nil && pm.EnclosingStmt(d) != nil && pm[pm.EnclosingStmt(d)] == ast.Node(blk) {
+						same = true
+					}
+				}
+				if !same {
+					ok = false
+					why = "the progress flag is set at " + c.P.Pos(site.Pos()) + " on a path that does not delete a definition"
+				}
 			}
 			return true
 		})
@@ -2157,13 +2208,16 @@ func (c *Ctx) progressRule(reach []*core.FuncInfo) {
 				if blk != nil {
 					dpos := pm.EnclosingStmt(d).Pos()
 					for _, st := range blk.List {
-						as, isAs := st.(*ast.AssignStmt)
-						if !isAs || len(as.Lhs) != 1 || len(as.Rhs) != 1 {
+						isRaise := false
+						for _, rs := range raiseStmts {
+							if rs == st {
+								isRaise = true
+							}
+						}
+						if !isRaise {
 							continue
 						}
-						if tv, isC := info.Types[as.Rhs[0]]; !isC || tv.Value == nil || tv.Value.String() != "true" || !c.flowsToReturn(fi, as.Lhs[0]) {
-							continue
-						}
+						as := st
 						lo, hi := dpos, as.Pos()
 						if lo > hi {
 							lo, hi = hi, lo
@@ -2783,6 +2837,12 @@ func (c *Ctx) fixpointCond(pass *core.FuncInfo, reach []*core.FuncInfo) {
 				cond := core.Unparen(loop.Cond)
 				_, isIdent := cond.(*ast.Ident)
 				ok = cond == ast.Expr(call) || isIdent && core.IsBool(info.TypeOf(cond))
+				// a pass that counts: for pass(opts) > 0 { }
+				if be, isBin := cond.(*ast.BinaryExpr); isBin && (be.Op == token.GTR || be.Op == token.NEQ) && core.Unparen(be.X) == ast.Expr(call) {
+					if tv, isC := info.Types[be.Y]; isC && tv.Value != nil && tv.Value.String() == "0" {
+						ok = true
+					}
+				}
 			}
 			c.S.Decide(ok, "C06", "TERM-PROGRESS", g.QName()+"/loop", c.P.Pos(loop.Pos()),
 				"the removal pass is repeated exactly as long as it reports progress",
